@@ -1204,6 +1204,8 @@ pub fn c06(args: &Args) -> i32 {
 // ---------------------------------------------------------------------------------------------
 
 pub fn c13(args: &Args) -> i32 {
+    let quick = args.tier_quick();
+    let seed = args.seed();
     let tab = Table {
         ops: vec![
             OpSpec::un("log"),
@@ -1347,6 +1349,60 @@ pub fn c13(args: &Args) -> i32 {
             add(format!("{name}*{name}"), Tree::bin(ix("*"), Tree::var(name), Tree::var(name)), "identifier");
             add(format!("sin {name}"), Tree::un(ix("sin"), Tree::var(name)), "identifier");
         }
+        // systematic part: every tree with <= 3 leaves over this table (names that are prefixes of each other, dual
+        // signs, constants, literal spellings, identifiers that continue operator names), rendered glued and spaced,
+        // with and without parentheses around unary operands: every adjacency of two lexeme classes occurs
+        {
+            let bins: Vec<u16> = ["<", "<=", "<<", "-", "+", "*"].iter().map(|r| ix(r)).collect();
+            let uns: Vec<Option<u16>> = std::iter::once(None).chain(["log", "log2", "log10", "sin", "sinh", "exp", "-", "+"].iter().map(|r| Some(ix(r)))).collect();
+            let leaves: Vec<Tree> = vec![
+                Tree::var("x"), Tree::var("h"), Tree::var("log2x"), Tree::var("PIx"), Tree::var("α"), Tree::var("e1"),
+                Tree::lit("4"), Tree::lit("1."), Tree::lit(".5"), Tree::lit("10"), Tree::Konst(ix("PI")), Tree::Konst(ix("e")),
+            ];
+            let wrap = |u: Option<u16>, t: Tree| match u {
+                Some(k) => Tree::un(k, t),
+                None => t,
+            };
+            let styles = [
+                Style::default(),
+                Style { space: true, ..Style::default() },
+                Style { unary_paren: true, ..Style::default() },
+                Style { brace_vars: true, ..Style::default() },
+            ];
+            let mut ctr = seed.wrapping_add(ti as u64);
+            let mut push = |t: Tree, out: &mut Vec<Program>| {
+                for st in &styles {
+                    out.push(Program { text: render(&t, st), tree: Some(t.clone()), class: "adjacency" });
+                }
+            };
+            let mut sys: Vec<Program> = vec![];
+            for (ia, a) in leaves.iter().enumerate() {
+                for ua in &uns {
+                    for ub in &uns {
+                        // two unary operators over one leaf
+                        push(wrap(*ua, wrap(*ub, a.clone())), &mut sys);
+                    }
+                    for (ib, b) in leaves.iter().enumerate() {
+                        for &k in &bins {
+                            for ub in &uns {
+                                push(Tree::bin(k, wrap(*ua, a.clone()), wrap(*ub, b.clone())), &mut sys);
+                                ctr += 1;
+                                // a unary over the binary node, and three-leaf trees of both shapes (sampled)
+                                if ctr % (if quick { 11 } else { 2 }) == 0 {
+                                    let c = &leaves[(ia + ib + ctr as usize) % leaves.len()];
+                                    let k2 = bins[(ctr as usize / 3) % bins.len()];
+                                    let uc = uns[(ctr as usize / 5) % uns.len()];
+                                    push(wrap(*ub, Tree::bin(k, wrap(*ua, a.clone()), b.clone())), &mut sys);
+                                    push(Tree::bin(k2, Tree::bin(k, wrap(*ua, a.clone()), wrap(*ub, b.clone())), wrap(uc, c.clone())), &mut sys);
+                                    push(Tree::bin(k, wrap(*ua, a.clone()), Tree::bin(k2, wrap(*ub, b.clone()), wrap(uc, c.clone()))), &mut sys);
+                                }
+                            }
+                        }
+                    }
+                }
+            }
+            out.extend(sys);
+        }
         out
     };
     let pls = ["flat", "flat_wo", "deep"];
@@ -1357,7 +1413,8 @@ pub fn c13(args: &Args) -> i32 {
         out,
         bounds: json!({
             "tables": "one table with unary log/log2/log10/sin/sinh/exp, binary < <= << - + *, constants PI E e π; and the same table in reversed order",
-            "families": ["operator names extended by 4 x _ α Ω9 _1 E PI e 0x => variable", "exact names applied to literal / variable / sign / braces", "truncated names => variable", "constants and extended constant names", "longest match (log2/log10 over log, sinh over sin, <= and << over <)", "sign chains", "literal spellings", "anything in braces", "Greek / underscore identifiers"],
+            "families": ["operator names extended by 4 x _ α Ω9 _1 E PI e 0x => variable", "exact names applied to literal / variable / sign / braces", "truncated names => variable", "constants and extended constant names", "longest match (log2/log10 over log, sinh over sin, <= and << over <)", "sign chains", "literal spellings", "anything in braces", "Greek / underscore identifiers",
+                "adjacency: every tree u1(a) op u2(b), u1 u2 a, and sampled u(a op b), (a op b) op2 c, a op (b op2 c) over binaries < <= << - + *, unaries log log2 log10 sin sinh exp - + (or none), leaves x h log2x PIx α e1 4 1. .5 10 PI e; rendered glued, spaced, with parenthesised unary operands, with braced variables"],
             "check": "var_names and value term equal to the expected tree (solver-decided value equality; these are paths of the real tokenizer at T = Sym)",
             "pipelines": pls,
         }),
